@@ -18,6 +18,11 @@ const c12Yang = `module m { namespace "urn:m"; prefix m; revision 2020-01-01;
 		container b { leaf y { type int32; } }
 		list l { key "k"; leaf k { type string; } leaf v { type int32; } container lc { leaf z { type string; } } }
 		choice ch { case c1 { leaf p { type string; } } case c2 { container q { leaf r { type string; } } } }
+		choice ch2 {
+			case n { choice inner { case i1 { leaf i1l { type string; } } case i2 { leaf i2l { type string; } } } leaf after { type string; } }
+			case o { leaf ol { type string; } }
+		}
+		leaf zlast { type string; }
 	}
 	container other { leaf o { type string; } }
 }`
@@ -50,6 +55,10 @@ func c12Fill(st *memStore, shape int) {
 	case 3: // choice case 1 + container
 		a.leaves["p"] = val.String("pp")
 		a.ensureKid(st, "b").leaves["y"] = val.Int32(9)
+	case 4: // a case that begins with a nested choice, followed by more leaves
+		a.leaves["i1l"] = val.String("in")
+		a.leaves["after"] = val.String("af")
+		a.leaves["zlast"] = val.String("zl")
 	}
 }
 
@@ -84,6 +93,10 @@ func c12Target(st *memStore, shape int, pre bool, full bool) {
 			break
 		}
 		a.ensureKid(st, "q").leaves["r"] = val.String("old")
+	case 4:
+		if !full {
+			a.leaves["ol"] = val.String("old") // other case of ch2 selected
+		}
 	}
 }
 
@@ -115,7 +128,10 @@ func c12Monitor(st *memStore, what string) {
 }
 
 func c12Run(m *meta.Module, strategy int, entry int, del bool) {
-	shape := vpChoose(4)
+	shape := vpChoose(5)
+	if entry == 2 {
+		shape = 1 // the list shape
+	}
 	pre := vpBool()
 	src, dst := newMemStore(), newMemStore()
 	c12Fill(src, shape)
@@ -139,6 +155,26 @@ func c12Run(m *meta.Module, strategy int, entry int, del bool) {
 	switch entry {
 	case 0:
 		sel, srcNode = root, src.node()
+	case 2: // a list entry is the edit root (it has three ancestors: list, a, module)
+		if !pre {
+			return
+		}
+		sel, err = root.Find("a/l=k1")
+		if err != nil || sel == nil {
+			c12Monitor(dst, "target")
+			return
+		}
+		srcNode = &memNode{s: src, t: src.root.kids["a"].lists["l"].find(val.String("k1"))}
+	case 3: // nested container as the addressed node (Delete)
+		if !pre || shape != 0 {
+			return
+		}
+		sel, err = root.Find("a/b")
+		if err != nil || sel == nil {
+			c12Monitor(dst, "target")
+			return
+		}
+		srcNode = &memNode{s: src, t: src.root.kids["a"].kids["b"]}
 	default:
 		sel, err = root.Find("a")
 		if err != nil || sel == nil {
@@ -176,7 +212,7 @@ func c12Run(m *meta.Module, strategy int, entry int, del bool) {
 				firedKind = e.kind
 			}
 		}
-		vpAssertK("C12-choose-error-swallowed", firedKind == "choose", err != nil, "an error returned by a node callback makes the call fail")
+		vpAssertK("C12-choose-error-swallowed", firedKind == "choose" && faultDst, err != nil, "an error returned by a node callback makes the call fail")
 		if err != nil {
 			if !vpIsSymbolic() && !errors.Is(err, errInjected) {
 				println("DEBUG err:", err.Error(), "firedKind:", firedKind)
@@ -213,3 +249,15 @@ func H_C12_fault_update_container(s any) { c12Run(s.(*meta.Module), 2, 1, false)
 
 //vp:setup S_c12
 func H_C12_fault_delete_container(s any) { c12Run(s.(*meta.Module), 0, 1, true) }
+
+//vp:setup S_c12
+func H_C12_fault_upsert_listentry(s any) { c12Run(s.(*meta.Module), 0, 2, false) }
+
+//vp:setup S_c12
+func H_C12_fault_update_listentry(s any) { c12Run(s.(*meta.Module), 2, 2, false) }
+
+//vp:setup S_c12
+func H_C12_fault_delete_listentry(s any) { c12Run(s.(*meta.Module), 0, 2, true) }
+
+//vp:setup S_c12
+func H_C12_fault_delete_nested(s any) { c12Run(s.(*meta.Module), 0, 3, true) }
